@@ -76,13 +76,26 @@ static void run_ring(std::istringstream& in) {
             else if (n == "MA") { if (f[0] != f[1]) x = std::move(*r[f[1]]); }
             else if (n == "CC") { if (f[0] != f[1]) r[f[0]].reset(new RB(*r[f[1]])); }
             else if (n == "MC") { if (f[0] != f[1]) r[f[0]].reset(new RB(std::move(*r[f[1]]))); }
-            else if (n == "Q") {
+            else if (n == "Q" || n == "MT") {
+                // the observers are exercised through the const and the non-const overloads, copy_to() and move_to()
                 const RB& c = x;
-                out << "Q:" << c.size() << ":" << (c.empty() ? 1 : 0) << ":";
-                for (size_t i = 0; i < c.size(); ++i) out << (i ? "." : "") << c[i].get();
-                out << ":";
-                if (c.empty()) out << "-:-"; else out << c.front().get() << ":" << c.back().get();
+                size_t sz = (k & 1) ? x.size() : c.size();
+                bool emp = (k & 1) ? x.empty() : c.empty();
+                out << "Q:" << sz << ":" << (emp ? 1 : 0) << ":";
+                std::string fb = "-:-";
+                if (!emp) fb = std::to_string((k & 2) ? x.front().get() : c.front().get()) + ":" + std::to_string((k & 2) ? x.back().get() : c.back().get());
+                {
+                    std::vector<Tracked> v;
+                    if (n == "MT") x.move_to(&v);
+                    else if (k % 3 == 0) c.copy_to(&v);
+                    else if (k % 3 == 1) for (size_t i = 0; i < c.size(); ++i) v.emplace_back(c[i]);
+                    else for (size_t i = 0; i < x.size(); ++i) v.emplace_back(x[i]);
+                    for (size_t i = 0; i < v.size(); ++i) out << (i ? "." : "") << v[i].get();
+                    if (v.size() != sz) out << "!len" << v.size();
+                }
+                out << ":" << fb;
                 out << " live=" << verif::Ledger::get().live.size() << " ";
+                if (x.max_size() + 1 > x.capacity() && x.capacity() != 0) out << "!cap ";
             }
         }
     }
